@@ -83,7 +83,7 @@ def what(tag, toks, d):
 if __name__ == "__main__":
     ctx = Ctx("C20")
     ctx.assumptions = [
-        "addresses are abstracted to the three predicates FilterAddrs evaluates (manet.IsPublicAddr, isProtocolAddr UDP / IP6); the harness assigns classes by construction from real multiaddrs and cross-checks them with those predicates",
+        "addresses are abstracted to the three predicates FilterAddrs evaluates (manet.IsPublicAddr, isProtocolAddr UDP / IP6); the harness assigns classes by construction from real multiaddrs (direct and /p2p-circuit, the class of a circuit address being that of its relay hop) and cross-checks them with those predicates",
         "Go int is modelled as unbounded (nat/Z): the request counter does not wrap",
         "each method is one critical section (mutex not modelled); metrics calls ignored",
         "precondition 1 <= N (N = 0 divides by zero in HandleRequest): proved for every BlackHoleSuccessCounter literal found in /repo (regenerated obligation c20_configs_wf)",
@@ -99,7 +99,10 @@ if __name__ == "__main__":
         rule="counter: EXHAUSTIVE enumeration of all op sequences over {HandleRequest, RecordResult(false), RecordResult(true)} "
              "of depth 9 (quick) / 11 (thorough) for every N in 1..4 and MinSuccesses in 0..N+1, plus seeded random phase-structured "
              "runs with N in 1..8 and 100; detector: seeded random histories of FilterAddrs over real multiaddrs of all 8 "
-             "(public,udp,ip6) classes, RecordResult and direct counter updates, Swarm.dialAddr with a scripted transport (dial ok / dial fails / context "
+             "(public,udp,ip6) classes, each both as a direct address and as a /p2p-circuit address relayed through a hop of that class "
+             "(classified by the outer transport address at both sites), directed prologues driving a counter to Blocked and directed "
+             "probe episodes (requests for a peer with only a relayed public UDP/IPv6 address until the probe is let through, then its "
+             "successful dial result), RecordResult and direct counter updates, Swarm.dialAddr with a scripted transport (dial ok / dial fails / context "
              "already cancelled / no transport / dial to self), nil/non-nil counters, read-only on/off. "
              "Every observation (returned state / State() after each op, per-address kept/black-holed flag) is compared with the "
              "Coq model (conform_case) and judged by the property monitors (monitor_case: per-step filter soundness, read-only and no-dial frozen, "
